@@ -28,12 +28,34 @@ def transports(ck):
         ck.violation(key, "%s: client %s (%s), %d items, attached until packet %d" % (b["why"], b["c"], b["proto"], b["nitems"], b["left_at"]), b)
 
 
+def multicast(ck):
+    """multicast players share one proxy consumer: one of them leaving must not stop delivery to the others"""
+    import os
+    tr = os.path.join(ck.tmp, "mcast.ndjson")
+    ck.run_driver("./transport", "^TestMulticast$", {"VERIF_OUT": tr}, timeout=600)
+    n = sum(1 for _ in open(tr))
+    if n < 6:
+        raise Infra("multicast leg produced %d records" % n)
+    rt = ck.tlc("fanout", "TransportTrace", "McastTrace.cfg", workers=1, env={"VERIF_TRACE": tr}, label="acceptance of the multicast-player leg")
+    if rt.distinct != n + 1:
+        raise Infra("trace validation consumed %d of %d" % (rt.distinct - 1, n))
+    ck.cov["multicast_leg"] = {"records": n}
+    ck.cov["traces_validated_against_impl"] += n
+    seen = set()
+    for b in rt.printed("@BAD"):
+        if not b["why"].startswith("C01:") or b["why"] in seen:
+            continue
+        seen.add(b["why"])
+        ck.violation(b["why"], "%s: %s" % (b["why"], b["ev"]), b)
+
+
 def run(ck):
     q = ck.quick()
     fc.run_family(ck, "C01", ["deliver2", "stop3", "flv2", "hevc2"] if q else list(fc.fs.SCENARIOS),
                   ["C01"], 200 if q else 2000, 600 if q else 20000)
     transports(ck)
-    ck.assumptions += ["transport leg: the publisher keeps writing for a quarter of a second after the judged sequence, because the TCP / WebSocket / HTTP writers batch (a write is flushed at once only when the previous flush is 20 ms old, otherwise with the next write); multicast is not exercised (no multicast route in the sandbox)"]
+    multicast(ck)
+    ck.assumptions += ["transport leg: the publisher keeps writing for a quarter of a second after the judged sequence, because the TCP / WebSocket / HTTP writers batch (a write is flushed at once only when the previous flush is 20 ms old, otherwise with the next write); multicast datagrams cannot be received (no multicast route in the sandbox): for multicast players the leg observes the proxy's consumer registration and the players' connections"]
 
 
 META = {
